@@ -578,6 +578,20 @@ class MatcherGen:
         return [r.choice(['', ' ']), r.choice(['', '@']), []]
 
     def command(self, nconn):
+        """a user command; matchers are sometimes ones given before in the session, in the same spelling (a text that means
+        something different the second time - a cache, an object modified in place - is only seen when it comes back)"""
+        ev = self.command_fresh(nconn)
+        r = self.r
+        if ev.get('ok') and 'ast' in ev and ev['ast'] not in (mrender.STAR, mrender.BANG):
+            used = self.__dict__.setdefault('used', [])
+            if used and r.random() < 0.3:
+                import copy
+                ev['ast'], ev['spell'] = copy.deepcopy(r.choice(used))
+            else:
+                used.append((ev['ast'], ev.get('spell')))
+        return ev
+
+    def command_fresh(self, nconn):
         r = self.r
         k = r.random()
         if k < 0.22:
